@@ -64,6 +64,13 @@ PAIRS = [
     ("no-case-declarations", "S", "switch (foo) { case 1: let x1 = 1; break; }", "switch (foo) { case 1: { let x1 = 1; break; } }"),
     ("no-duplicate-case", "S", "switch (a) { case a: case a: }", "switch(a) { case toString: break; }"),
     ("no-dupe-else-if", "S", "if (a) {} else if (a) {}", "if (a) {} else if (b) {}"),
+    # TypeScript-only syntax INSIDE the compared expressions (type nodes must be normalised like everything else)
+    ("no-dupe-else-if", "S", "if (a as T) {} else if (a as T) {}", "if (a as T) {} else if (b as T) {}", "ts"),
+    ("no-dupe-else-if", "S", "if (f<T>(a)) {} else if (f<T>(a)) {}", "if (f<T>(a)) {} else if (f<U>(a)) {}", "ts"),
+    ("no-duplicate-case", "S", "switch (x) { case (y as T): break; case (y as T): break; }", "switch (x) { case (y as T): break; case (z as T): break; }", "ts"),
+    ("no-duplicate-case", "S", "switch (x) { case ((p: number) => p): break; case ((p: number) => p): break; }", "switch (x) { case ((p: number) => p): break; case ((q: number) => 1): break; }", "ts"),
+    ("no-self-compare", "E", "(x as T) === (x as T)", "(x as T) === (y as T)", "ts"),
+    ("no-dupe-keys", "E", "{ a: 1 as T, a: 2 as T }", "{ a: 1 as T, b: 2 as T }", "ts"),
     ("no-dupe-args", "E", "function (a, b, a) {}", "function (a, b, c) {}"),
     ("no-dupe-class-members", "E", "class { foo() {} foo() {} }", "class { foo() {} bar() {} }"),
     ("no-constant-condition", "S", "if(true);", "if(a);"),
@@ -122,6 +129,11 @@ PAIRS = [
 CONTEXTS = [
     # expression in expression
     ("call-argument", "E", "E", "f(0, ", ")", ["visit_call_expr", "visit_expr_or_spread"], ""),
+    # the value of a `get:` property of a property descriptor, behind something that is not directly a function
+    ("descriptor-get-call-argument", "E", "E", "Object.defineProperty(o, 'k', { get: memo(", ") })", ["visit_call_expr", "visit_expr_or_spread", "visit_object_lit", "visit_prop", "visit_key_value_prop"], ""),
+    ("descriptor-get-conditional", "E", "E", "Object.defineProperty(o, 'k', { get: c ? ", " : null })", ["visit_call_expr", "visit_expr_or_spread", "visit_object_lit", "visit_prop", "visit_key_value_prop", "visit_cond_expr"], ""),
+    ("descriptor-get-paren-function-body", "S", "E", "Reflect.defineProperty(o, 'k', { get: (function () { ", " return 1; }) })", ["visit_call_expr", "visit_expr_or_spread", "visit_object_lit", "visit_prop", "visit_key_value_prop", "visit_paren_expr", "visit_fn_expr", "visit_function", "visit_block_stmt"], ""),
+    ("descriptor-map-get-call-argument", "E", "E", "Object.defineProperties(o, { k: { get: wrap(", ") } })", ["visit_call_expr", "visit_expr_or_spread", "visit_object_lit", "visit_prop", "visit_key_value_prop"], ""),
     # heads of loops / catch clauses / assignment patterns, and further expression positions (added after a panic was found in a for-of head)
     ("for-of-head-array-default", "E", "S", "for (const [d%d = ", "] of it) { g(); }", ["visit_for_of_stmt", "visit_for_head", "visit_var_decl", "visit_var_declarator", "visit_pat", "visit_array_pat", "visit_assign_pat"], ""),
     ("for-of-head-object-default", "E", "S", "for (const { d%d = ", " } of it) { g(); }", ["visit_for_of_stmt", "visit_for_head", "visit_var_decl", "visit_var_declarator", "visit_pat", "visit_object_pat", "visit_object_pat_prop", "visit_assign_pat_prop"], ""),
@@ -263,6 +275,10 @@ EXPECTED_NON_NEUTRAL = {
     ("no-extra-boolean-cast", "while-test"): "boolean context (specification)",
     ("no-extra-boolean-cast", "do-while-test"): "boolean context (specification)",
     ("no-var", "var-initialiser"): "the context is itself a `var` declaration",
+    ("prefer-primordials", "descriptor-get-call-argument"): "the context itself calls a method of the global Object / Reflect",
+    ("prefer-primordials", "descriptor-get-conditional"): "the context itself calls a method of the global Object / Reflect",
+    ("prefer-primordials", "descriptor-get-paren-function-body"): "the context itself calls a method of the global Object / Reflect",
+    ("prefer-primordials", "descriptor-map-get-call-argument"): "the context itself calls a method of the global Object / Reflect",
     ("prefer-primordials", "array-destructuring-default"): "prefer-primordials targets the syntax of the context itself (iteration protocol / spread / `in`)",
     ("prefer-primordials", "array-spread"): "prefer-primordials targets the syntax of the context itself (iteration protocol / spread / `in`)",
     ("prefer-primordials", "assignment-pattern-array-default"): "prefer-primordials targets the syntax of the context itself (iteration protocol / spread / `in`)",
@@ -864,6 +880,16 @@ def c08(ctx):
     r = explore(ctx, table, ctx.tier, ctx.seed)
     for bp in r["bad_pairs"]:
         ctx.obligation("baseline: construct of %s reports and its twin is silent" % bp["pair"][0], False, json.dumps(bp)[:1500])
+        # ... and it is a property-level failure with a concrete program: the catalogue's construct, not nested at all, is not reported (or its twin is)
+        pr = bp["pair"]
+        cons_rep = [d for d in (bp.get("construct") or {}).get("ok", []) if d.get("code") == pr[0]]
+        twin_rep = [d for d in (bp.get("twin") or {}).get("ok", []) if d.get("code") == pr[0]]
+        if "ok" in (bp.get("construct") or {}) and not cons_rep:
+            src0 = filler_for(pr[1], pr[2], "S")
+            ctx.violation("C08.hidden:%s:not-nested" % pr[0], "the catalogue's offending construct is not reported even at the top level: %s" % src0, {"program": src0, "rule": pr[0], "media": pair_media(pr)})
+        if twin_rep:
+            src0 = filler_for(pr[1], pr[3], "S")
+            ctx.violation("C08.created:%s:not-nested" % pr[0], "the catalogue's neutral twin is reported at the top level: %s" % src0, {"program": src0, "rule": pr[0], "media": pair_media(pr), "got": twin_rep})
     stats = r["stats"]
     n_eval = sum(v for k, v in stats.items())
     n_ok = stats["depth1:ok"] + stats["deep:ok"] + stats["sweep:context-only programs"] - stats["sweep:unparsable"]
@@ -1106,6 +1132,26 @@ def c08(ctx):
                 else:
                     n_e_ok += 1
     function_kind_family(ctx)
+    # ---------------------------------------------------------------- (i) fixed verdicts for rules whose offence IS a context (no sweep possible)
+    FIXED = [("no-inner-declarations", "function o1(cb = () => {}) { if (c) { function inner() {} } }", 1), ("no-inner-declarations", "function o2(cb = () => {}) { function inner() {} var v; }", 0),
+             ("no-inner-declarations", "function o3(cb = function () {}) { if (c) { var v3; } }", 1), ("no-inner-declarations", "function o4(cb = function () { var w; }) { var v4; function inner() {} }", 0),
+             ("no-inner-declarations", "class K8 { [(() => 1)()]() { function inner() {} var v; } }", 0), ("no-inner-declarations", "class K9 { [(() => 1)()]() { if (c) { function inner() {} } } }", 1),
+             ("no-inner-declarations", "x = { get [(() => 'k')()]() { function inner() {} return 1; } };", 0), ("no-inner-declarations", "x = { set [(() => 'k')()](v) { if (v) { var q; } } };", 1),
+             ("no-inner-declarations", "const a1 = (p = () => { function deep() {} }) => { function inner() {} };", 0), ("no-inner-declarations", "function o5(p = class { static { function s() {} } }) { function inner() {} }", 1),   # `s`: a static block is not a function root for this rule
+             ("no-inner-declarations", "function o6({ k = () => {} }, [l = function () {}]) { function inner() {} if (c) { function bad() {} } }", 1),
+             ("no-inner-declarations", "class D1 { @dec(() => {}) m() { function inner() {} } }", 0)]
+    fres = run_lint([{"src": src, "media": "ts", "rules": [rule]} for rule, src, n in FIXED])
+    n_f = n_f_ok = 0
+    for (rule, src, n), r0 in zip(FIXED, fres):
+        d = rule_diags(r0, rule)
+        if d is None:
+            continue
+        n_f += 1
+        if len(d) == n:
+            n_f_ok += 1
+        else:
+            ctx.violation("C08.%s:%s:fixed-verdict" % ("created" if len(d) > n else "hidden", rule), "%d diagnostic(s), %d expected: %s" % (len(d), n, src), {"program": src, "rule": rule, "got": d, "expected_count": n})
+    ctx.correspondence("fixed verdicts: function-like expressions in parameter defaults / computed keys / decorators of the function whose body is judged", n_f, n_f_ok, [], "count per program")
     # ---------------------------------------------------------------- (h) function forms: the offending FUNCTION in every form
     FORMS = [("fn-decl", "%sfunction%s w(%s) { %s }"), ("fn-expr", "x = %sfunction%s (%s) { %s };"), ("arrow", "x = %s(%s) => { %s };"),
              ("class-method", "class K { %s%sm(%s) { %s } }"), ("static-method", "class K { static %s%sm(%s) { %s } }"), ("private-method", "class K { %s%s#m(%s) { %s } }"),
